@@ -218,7 +218,8 @@ class Report:
                         print(f"KNOWN-FINDING: property={self.prop} {k.get('what', key)}")
                     continue
                 b_fail += 1
-                path = self.replay_file(key, dict(property=self.prop, obligation=key, bounded=True, failure=fl))
+                path = self.replay_file(key, dict(property=self.prop, obligation=key, bounded=True, failure=fl,
+                                                  seam=r.get("name"), seam_func=r.get("seam_func"), tier=self.tier, seed=self.seed))
                 self.violations.append((path, ""))
         for c in self.canaries:
             if c.get("error"):
